@@ -39,6 +39,10 @@ pub struct HistCase {
   #[serde(with = "gen::hexser")]
   pub seed: Vec<u8>,
   pub ops: Vec<BOp>,
+  /// ops[i] goes to a second, independent builder when twin[i] is true (both builders are alive together;
+  /// nothing done to one may show in the other)
+  #[serde(default)]
+  pub twin: Vec<bool>,
 }
 
 /// what the interpreter observed at one `build`
@@ -51,6 +55,8 @@ pub struct BuildObs {
   /// exp supplied (once) after the acknowledgement
   pub exp_after_ack: bool,
   pub builds_before: usize,
+  /// 0 or 1: which of the two builders
+  pub builder: usize,
 }
 
 pub struct Run {
@@ -68,36 +74,41 @@ pub fn interpret(c: &HistCase) -> Run {
   let km = keys::material(p, &gen::arr32(&c.seed));
   let lk = km.lib().expect("valid key");
   let t0 = tgen::now();
-  let mut b = new_builder(p, Layer::Prelude);
+  let mut builders = [new_builder(p, Layer::Prelude), new_builder(p, Layer::Prelude)];
   let t1 = tgen::now();
-  let mut supplied: BTreeMap<String, (u32, Value)> = BTreeMap::new();
-  let (mut ack, mut exp_after_ack) = (false, false);
-  let (mut footer, mut assertion): (Option<&str>, Option<&str>) = (None, None);
+  let mut supplied: [BTreeMap<String, (u32, Value)>; 2] = [BTreeMap::new(), BTreeMap::new()];
+  let mut ack = [false, false];
+  let mut exp_after_ack = [false, false];
+  let mut footer: [Option<&str>; 2] = [None, None];
+  let mut assertion: [Option<&str>; 2] = [None, None];
+  let mut nbuilds = [0usize, 0usize];
   let mut run = Run { t0, t1, builds: vec![], readback_error: None };
   let mut tokens: Vec<String> = vec![];
   for (i, op) in c.ops.iter().enumerate() {
+    let w = c.twin.get(i).copied().unwrap_or(false) as usize;
+    let b = &mut builders[w];
     match op {
       BOp::Set(spec) => {
         if b.set(spec).is_ok() {
-          let e = supplied.entry(spec.key().to_string()).or_insert((0, Value::Null));
+          let e = supplied[w].entry(spec.key().to_string()).or_insert((0, Value::Null));
           e.0 += 1;
           e.1 = spec.expected();
-          if spec.key() == "exp" && ack {
-            exp_after_ack = true;
+          if spec.key() == "exp" && ack[w] {
+            exp_after_ack[w] = true;
           }
         }
       }
       BOp::Ack => {
         b.ack_no_expiry();
-        ack = true;
+        ack[w] = true;
       }
       BOp::Footer(f) => {
         b.footer(f);
-        footer = Some(f.as_str());
+        footer[w] = Some(f.as_str());
       }
       BOp::Assertion(a) => {
         if b.assertion(a) {
-          assertion = Some(a.as_str());
+          assertion[w] = Some(a.as_str());
         }
       }
       BOp::Build => {
@@ -107,7 +118,7 @@ pub fn interpret(c: &HistCase) -> Run {
           Ok(token) => {
             tokens.push(token);
             let t = tokens.last().unwrap();
-            match layer_parse(p, Layer::Generic, &lk, t, footer, assertion) {
+            match layer_parse(p, Layer::Generic, &lk, t, footer[w], assertion[w]) {
               Ok(crate::rt::LayerOut::Json(v)) => Ok(v),
               Ok(_) => unreachable!(),
               Err(e) => {
@@ -117,8 +128,8 @@ pub fn interpret(c: &HistCase) -> Run {
             }
           }
         };
-        let builds_before = run.builds.len();
-        run.builds.push(BuildObs { index: i, result, supplied: supplied.clone(), ack, exp_after_ack, builds_before });
+        run.builds.push(BuildObs { index: i, result, supplied: supplied[w].clone(), ack: ack[w], exp_after_ack: exp_after_ack[w], builds_before: nbuilds[w], builder: w });
+        nbuilds[w] += 1;
       }
     }
   }
@@ -145,8 +156,11 @@ impl Sub for ExpiryDefault {
   fn check(&self, c: &HistCase, cl: &mut Classes) -> Verdict {
     let p = c.proto;
     let run = interpret(c);
-    let hist: Vec<String> = c.ops.iter().map(|o| o.short()).collect();
+    let hist: Vec<String> = c.ops.iter().enumerate().map(|(i, o)| if c.twin.get(i).copied().unwrap_or(false) { format!("B2.{}", o.short()) } else { o.short() }).collect();
     let ok_builds = run.builds.iter().filter(|b| b.result.is_ok()).count();
+    if c.twin.iter().any(|t| *t) {
+      cl.tag("two-builders-interleaved");
+    }
     cl.tag(format!("{}", p.label()));
     cl.tag(format!("successful-builds={}", ok_builds.min(3)));
     cl.tag(format!("len={}", c.ops.len().min(8)));
@@ -296,7 +310,7 @@ pub fn random_op() -> BoxedStrategy<BOp> {
 }
 
 pub fn random_case(proto: Proto, max_len: usize) -> BoxedStrategy<HistCase> {
-  (gen::bytes32(), vec(random_op(), 0..=max_len)).prop_map(move |(seed, ops)| HistCase { proto, seed, ops }).boxed()
+  (gen::bytes32(), vec(random_op(), 0..=max_len), prop_oneof![2 => Just(vec![]), 1 => vec(any::<bool>(), 0..=max_len)]).prop_map(move |(seed, ops, twin)| HistCase { proto, seed, ops, twin }).boxed()
 }
 
 fn all_subs() -> Vec<ExpiryDefault> {
@@ -324,6 +338,7 @@ pub fn run(ctx: &Ctx) -> EvidenceMeta {
             proto: Proto::V4L,
             seed: vec![11u8; 32],
             ops: w.iter().enumerate().map(|(i, l)| alphabet_op(*l, i)).collect(),
+            twin: vec![],
           });
           ctx.enumerate(s, cases, true)
         }));
